@@ -48,46 +48,113 @@ def hex16 (n : UInt64) : String :=
 def hashName (_known : List String) (h : String) : String :=
   "H" ++ hex16 (fnv64 ((h.drop 2).toString))   -- h = "H:" ++ render
 
+def showDocMeta (known : List String) (d : Doc) (m : VMeta) : String :=
+  let prev := match m.prevHash with | some h => hashName known h | none => "-"
+  let upd := match m.updated with | some u => toString u | none => "-"
+  s!"ok doc={d.render} created={m.created} updated={upd} hash={hashName known m.hash} prev={prev} src=[{String.intercalate "," (m.sourceTx.map shortRef)}] deact={m.deactivated}"
+
 def showResolve (known : List String) (r : Res (Doc × Meta)) : String :=
   match r with
   | .err e => "err:" ++ e
   | .panic s => "panic:" ++ s
-  | .ok (d, m) =>
-    let prev := match m.prevHash with | some h => hashName known h | none => "-"
-    s!"ok doc={d.render} created={m.created} updated={m.updated} hash={hashName known m.hash} prev={prev} src=[{String.intercalate "," (m.sourceTx.map shortRef)}] deact={m.deactivated}"
+  | .ok (d, m) => showDocMeta known d m.asVDR
 
-def observe (s : Store) (evs : List Event) (times : List Nat) : String := Id.run do
+def showHistory (known : List String) (r : Res (List HistDoc)) : String :=
+  match r with
+  | .err e => "err:" ++ e
+  | .panic s => "panic:" ++ s
+  | .ok l => "ok [" ++ String.intercalate " " (l.map fun h => s!"{h.version}:{h.created}:{h.updated}:{hashName known h.raw}") ++ "]"
+
+structure PSpec where
+  h : Int
+  s : Int
+  t : Int
+  ad : Bool
+
+def parseProbe (j : Json) : PSpec := { h := jInt j "h", s := jInt j "s", t := jInt j "t", ad := jBool j "ad" }
+
+/-- the Resolve metadata a probe stands for, for a DID whose own events (in set order) are `mine` -/
+def probeMeta (mine : List Event) (p : PSpec) : ResolveMeta :=
+  let pick (i : Int) : Option Event := if i ≥ 0 ∧ mine.length > 0 then mine[i.toNat % mine.length]? else none
+  { allowDeactivated := p.ad
+    hash := if p.h == -2 then some "H:?occurs-nowhere" else (pick p.h).map (·.payloadHash)
+    sourceTx := if p.s == -2 then some 0 else (pick p.s).map (·.ref)
+    time := if p.t ≥ 0 then some p.t.toNat else none }
+
+def observe (s : Store) (evs : List Event) (times : List Nat) (probes : List PSpec) (lite : Bool) : String := Id.run do
   let known := evs.map (·.payloadHash)
   let dids := (evs.map (·.doc.id)).eraseDups.toArray.qsort (· < ·) |>.toList
+  let it := iterate s
+  let act := findActive s
   let mut p : Probes := {}
-  p := p.lit s!"cc={s.conflictedCount} dc={s.documentCount}"
+  p := p.lit s!"cc={s.conflictedCount} dc={s.documentCount} nconf={s.cache.length} niter={it.length} nactive={act.length} iter=[{String.intercalate "," (it.map (·.1.id))}] unknown={showResolve known (resolve s "did:nuts:occursnowhere" (some { allowDeactivated := true }))}/{showHistory known (historySince (s.get "did:nuts:occursnowhere") 0)}"
   for d in dids do
     p := p.lit ("DID " ++ d)
     p := p.probe "nil:" (showResolve known (resolve s d none))
     p := p.probe "ad:" (showResolve known (resolve s d (some { allowDeactivated := true })))
-    for t in times do
-      p := p.probe s!"t{t}:" (showResolve known (resolve s d (some { time := some t })))
-      p := p.probe s!"ta{t}:" (showResolve known (resolve s d (some { time := some t, allowDeactivated := true })))
-    let mut i := 0
-    for e in evs do
-      p := p.probe s!"s{i}:" (showResolve known (resolve s d (some { sourceTx := some e.ref, allowDeactivated := true })))
-      p := p.probe s!"h{i}:" (showResolve known (resolve s d (some { hash := some e.payloadHash, allowDeactivated := true })))
-      i := i + 1
-    p := p.lit s!"conflicted={(s.get d).conflicted}"
+    p := p.probe "nad:" (showResolve known (resolve s d (some {})))
+    let confS := match conflictedOf s d with | some (doc, m) => showDocMeta known doc m | none => "-"
+    let iterS := match it.find? (fun q => q.1.id == d) with | some (doc, m) => showDocMeta known doc m | none => "-"
+    let actS := match act.find? (fun q => q.id == d) with | some doc => doc.render | none => "-"
+    if !lite then
+      let mine := evs.filter (fun e => e.doc.id == d)
+      let mut ti := 0
+      for t in times do
+        p := p.probe s!"t{ti}:" (showResolve known (resolve s d (some { time := some t })))
+        p := p.probe s!"ta{ti}:" (showResolve known (resolve s d (some { time := some t, allowDeactivated := true })))
+        ti := ti + 1
+      let mut i := 0
+      for e in evs do
+        p := p.probe s!"s{i}:" (showResolve known (resolve s d (some { sourceTx := some e.ref, allowDeactivated := true })))
+        p := p.probe s!"h{i}:" (showResolve known (resolve s d (some { hash := some e.payloadHash, allowDeactivated := true })))
+        i := i + 1
+      let mut k := 0
+      for ps in probes do
+        p := p.probe s!"p{k}:" (showResolve known (resolve s d (some (probeMeta mine ps))))
+        k := k + 1
+      p := p.probe "conf:" confS
+      p := p.probe "iter:" iterS
+      p := p.probe "active:" actS
+      for v in List.range (mine.length + 2) do
+        p := p.probe s!"hist{v}:" (showHistory known (historySince (s.get d) v))
+    else
+      p := p.probe "conf:" confS
+      p := p.probe "iter:" iterS
+      p := p.probe "active:" actS
+    p := p.lit s!"conflicted={(conflictedOf s d).isSome}"
   return p.render
+
+/-- arrival sequence with the op's failure codes: an Add whose first or second write transaction fails (1, 2, 3)
+    leaves the modelled state unchanged (the txRef / document shelves are content addressed and only ever read
+    for refs of listed events); 4 = restart (cache reload) before a plain Add -/
+def runSeq (s : Store) : List (Event × Nat) → Res Store
+  | [] => .ok s
+  | (e, code) :: rest =>
+    if code = 1 ∨ code = 2 ∨ code = 3 then runSeq s rest
+    else
+      let s0 := if code = 4 then reload s else s
+      match add cfg s0 e with
+      | .ok s' => runSeq s' rest
+      | .err x => .err x
+      | .panic x => .panic x
 
 def step (st : St) (j : Json) : St × List String :=
   match jStr j "op" with
   | "seq" =>
     let evs := ((jArr j "events").map parseEvent).toArray
     let arrival := jNats j "arrival"
+    let fail := jNats j "fail"
     let times := jNats j "times"
-    let seq := arrival.filterMap (fun i => evs[i]?)
-    match addAll cfg {} seq with
-    | .ok s => let o := observe s evs.toList times; ({ last := o }, [o])
+    let probes := (jArr j "probes").map parseProbe
+    let seq := (arrival.zipIdx).filterMap (fun (i, pos) => (evs[i]?).map (fun e => (e, fail.getD pos 0)))
+    match runSeq {} seq with
+    | .ok s =>
+      let o := observe s evs.toList times probes false
+      -- restart: the durable state survives, the conflicted cache is rebuilt from the shelves
+      ({ last := observe (reload s) evs.toList times probes true }, [o])
     | .err e => ({ last := "err:" ++ e }, ["err:" ++ e])
     | .panic e => ({ last := "panic:" ++ e }, ["panic:" ++ e])
-  | "again" => (st, [st.last])   -- restart: durable state is the whole model state
+  | "again" => (st, [st.last])
   | o => (st, ["bad-op:" ++ o])
 
 end Nuts.Drv.C10
